@@ -460,6 +460,9 @@ class EvolvableMultiInput(EvolvableModule):
         """
         self.activation = activation
         if output:
+            # NOTE: keep the init dict in sync so that a rebuilt network (clone, shared
+            # network re-creation, checkpoint) has the same output activation
+            self.output_activation = activation
             self.output = get_activation(activation)
 
     @mutation(MutationType.NODE)
